@@ -105,6 +105,8 @@ class Tr:
         if isinstance(e, ast.Name):
             if e.id in env:
                 return k(*env[e.id])
+            if e.id in sp.get('names', {}):
+                return k(*sp['names'][e.id])
             raise Unsupported('unknown name %s' % e.id)
         if isinstance(e, ast.Attribute):
             path = ast.unparse(e)
@@ -114,6 +116,14 @@ class Tr:
                 return k(*env[('$field', path)])
             if path in sp.get('fields', {}):
                 return k(*sp['fields'][path])
+            if e.attr in sp.get('obj_props', {}):
+                fn, t, eff = sp['obj_props'][e.attr]
+
+                def prop_read(a, ta):
+                    if ta != 'obj':
+                        raise Unsupported('property %s of a %s' % (path, ty_str(ta) if ta not in ('intlit', 'none') else ta))
+                    return self._apply(fn, [a], ('fun', ['obj'], t, eff), k)
+                return self.expr(e.value, env, prop_read)
             # attribute of a heap object: read from the heap parameter of the spec
             if e.attr in sp.get('obj_attrs', {}):
                 fn, t = sp['obj_attrs'][e.attr]
@@ -230,6 +240,29 @@ class Tr:
             return self.expr(e.args[0], env, lambda a, ta: k(self.coerce(a, ta, 'obj'), 'obj'))
         if name == 'set' and not e.args and not e.keywords:
             return k('[]', 'emptylist')
+        if name == 'set' and len(e.args) == 1 and not e.keywords:
+            # a set built from a list: the list of its distinct elements (first occurrences); membership and len agree
+            def as_set(l, tl):
+                if tl == ('list', 'obj') or tl == ('list', 'nat'):
+                    return k('(nodup Nat.eq_dec %s)' % l, tl)
+                if tl == ('list', 'Z'):
+                    return k('(nodup Z.eq_dec %s)' % l, tl)
+                raise Unsupported('set(...) of %s' % (ty_str(tl) if isinstance(tl, tuple) else tl))
+            return self.expr(e.args[0], env, as_set)
+        if name == 'len' and len(e.args) == 1 and not e.keywords:
+            def length(l, tl):
+                if not (isinstance(tl, tuple) and tl[0] == 'list'):
+                    raise Unsupported('len of %s' % (ty_str(tl) if isinstance(tl, tuple) else tl))
+                return k('(Z.of_nat (length %s))' % l, 'Z')
+            return self.expr(e.args[0], env, length)
+        if isinstance(e.func, ast.Attribute) and e.func.attr == 'intersection' and len(e.args) == 1 and not e.keywords:
+            def inter(a, ta):
+                def inter2(b, tb):
+                    if ta != tb or ta not in (('list', 'Z'), ('list', 'obj')):
+                        raise Unsupported('intersection of %r and %r' % (ta, tb))
+                    return k('(filter (fun x_ => existsb (%s x_) %s) %s)' % (self.eqb(ta[1]), b, a), ta)
+                return self.expr(e.args[0], env, inter2)
+            return self.expr(e.func.value, env, inter)
         if name in self.spec.get('self_calls', ()):
             # a call of the function being translated: one unit of fuel less
             tf = self.spec['self_type']
@@ -698,12 +731,12 @@ class Tr:
                 raise Unsupported('for over a %s' % (ty_str(ta) if ta not in ('intlit', 'none', 'emptylist') else ta))
             e_body = env_in(env)
             e_body[s.target.id] = (x, ta[1])
-            done = lambda env1: 'Ok %s' % pass_vars(env1)
+            done = (lambda env1: 'Ok %s' % pass_vars(env1)) if vs else (lambda env1: 'Ok tt')
             body = self.block(list(s.body), e_body, done, done)
             after = self.block(rest, env_in(env), fall, outer)
-            pat = tup(params)
+            pat = tup(params) if vs else 'tt'
             if not vs:
-                return '(do _ <- %s (fun (_ : unit) %s => do _ <- %s; Ok tt) %s tt; %s)' % (self.ops.get('fold', 'fold_res'), x, body, a, after)
+                return '(do _ <- %s (fun (_ : unit) %s => %s) %s tt; %s)' % (self.ops.get('fold', 'fold_res'), x, body, a, after)
             return "(do %s <- %s (fun %s %s => let '%s := %s in %s) %s %s; let '%s := %s in %s)" % (
                 st, self.ops.get('fold', 'fold_res'), st, x, pat, st, body, a, pass_vars(env), pat, st, after)
         return self.expr(s.iter, env, with_iter)
@@ -713,6 +746,8 @@ class Tr:
             raise Unsupported('for-loop form')
         if self.spec.get('loops') == 'fold':
             return self.fold_loop(s, rest, env, fall, outer)
+        if any(isinstance(n, (ast.For, ast.While)) for st in s.body for n in ast.walk(st)):
+            raise Unsupported('a loop inside a loop (the spec must ask for the fold translation)')
         vs = self.carried(s.body, env)
         vts = [self.local_type(v) for v in vs]
         params = [self.fresh(v) for v in vs]
